@@ -510,7 +510,7 @@ def run_codec_property(prop, tier):
         p = sh(["timeout", "600", "apalache-mc", "check", "--init=Init", "--next=Next", "--inv=Lemmas", "--length=0",
                 "--out-dir=" + os.path.join(BUILD, "apalache"), "Lemmas.tla"], cwd=os.path.join(SPEC, "apalache"), check=False, timeout=700)
         if "The outcome is: NoError" in p.stdout:
-            lemmas = "IndexTranslation, ProofLength, UpdateGuards, NaturalM hold for all naturals (Apalache, SMT)"
+            lemmas = "IndexTranslation, ProofLength, CommitLength, UpdateGuards, NaturalM, GeneratorLoop hold for all naturals (Apalache, SMT)"
         elif "violat" in p.stdout.lower():
             violations.append({"property": prop, "what": "Apalache: an arithmetic lemma of spec/apalache/Lemmas.tla is violated (specification level)"})
         else:
@@ -743,9 +743,9 @@ CL = {
     "C14": {"inv": ["C15used"], "drivers": ["blind"], "ops": {"CLIssue", "CLUpdate", "CLLeaf:zkpok"}},
     "C15": {"inv": ["C15used", "ReportLinks"], "drivers": ["pok"], "ops": {"CLPoK", "CLLeaf:spok", "CLFormat:spok", "CLInfoLink"}},
     "C16": {"inv": ["C16anchored", "C16tolerance"], "drivers": ["boudot"], "ops": {"CLRange", "CLLeaf:range", "CLFormat:range", "CLRangeSplit"}},
-    "C17": {"inv": ["C17noOpenings", "C17split"], "drivers": ["leak", "blind", "boudot"], "ops": {"CLFormat:zkpok", "CLFormat:spok", "CLOpenings", "CLDictionary", "CLUnblinded", "CLSharedBlinding", "CLRangeSplit"}},
+    "C17": {"inv": ["C17noOpenings", "C17split"], "drivers": ["leak", "blind", "boudot"], "ops": {"CLFormat:zkpok", "CLFormat:spok", "CLOpenings", "CLDictionary", "CLUnblinded", "CLSharedBlinding", "CLRangeSplit", "CLCommitRand"}},
     "C18": {"inv": ["C18toy"], "drivers": ["keys", "sig"], "ops": {"CLKeyFacts", "CLRandomFacts", "CLRoundTrip"}},
-    "C19": {"inv": ["C19masks"], "drivers": ["leak"], "ops": {"CLMask", "CLMaskLens", "CLMaskSummary", "CLUnblinded", "CLSharedBlinding", "CLFresh", "CLPoK"}},
+    "C19": {"inv": ["C19masks"], "drivers": ["leak"], "ops": {"CLMask", "CLMaskLens", "CLMaskSummary", "CLUnblinded", "CLSharedBlinding", "CLFresh", "CLPoK", "CLRangeMask"}},
 }
 CL_TRACE_CFG = """CONSTANTS
   Dev = %s
@@ -884,12 +884,17 @@ def run_cl_property(prop, tier):
                  "calls": pr["ops"], "mismatches": len(mine), "mismatches_other_properties": len(pr["mismatches"]) - len(mine), "sample": pr["sample"]}
     # --- implementation -> specification: driver logs
     suites = [("1024", 2 if tier == "quick" else 4)] + ([("2048", 2)] if tier == "thorough" else [])
+    if prop == "C18":
+        # the library's key generation at the sizes of the toy model (9-bit safe primes: collisions are likely if p != q is not enforced)
+        suites.append(("16", 200 if tier == "quick" else 1000))
     nev = 0
     samples = []
     logs = []
     info = []
     for suite, nkeys in suites:
         for drv in spec["drivers"]:
+            if suite == "16" and drv != "keys":
+                continue
             raw = os.path.join(BUILD, "cl_%s_%s_%s_%s.ndjson" % (prop, drv, suite, tier))
             cmd = [ZKVCL, drv, raw, "--keys", str(nkeys), "--suite", suite, "--leaf-stride", "13" if tier == "quick" else ("3" if suite == "1024" else "29")]
             if tier == "thorough" and suite == "1024":
@@ -1010,7 +1015,7 @@ def selftest():
     expect_violation("MC_codec", {"Dev": '{"F3", "F5"}', "MaxN": 1}, ["C08"], "C08", "F3F5", init="Init")
     expect_violation("MC_codec", {"Dev": '{"F4"}', "MaxN": 1}, ["C09"], "C09", "F4", init="Init")
     expect_violation("MC_codec", {"Dev": '{"F14"}', "MaxN": 1}, ["C08"], "C08", "F14", init="Init")
-    for dev, inv in (("F7", "C13toy"), ("F8", "C16anchored"), ("F13", "C16tolerance"), ("F9", "C17noOpenings"), ("F10", "C19masks")):
+    for dev, inv in (("F7", "C13toy"), ("F8", "C16anchored"), ("F13", "C16tolerance"), ("F9", "C17noOpenings"), ("F10", "C19masks"), ("F16", "C19masks")):
         expect_violation("MC_cl", {"Dev": '{"%s"}' % dev, "MaxN": 1, "Bound": 12}, [inv], inv, dev, init="Init")
     r = apalache_inv("BoudotLemmas", "AsIsTolerance", "selftest_asis")
     print("  [%s] Apalache, BoudotLemmas!AsIsTolerance (the pinned range-proof parameters, F13): %s" % ("ok" if r == "violated" else "FAIL", r))
